@@ -57,7 +57,7 @@ SW_HEADS = ["--opt=", "--file=", "-I", "key:", "--level=", "@", "--set-", "of=",
 SW_SEPS = [",", ":", "=", "..", "-", "/"]
 NT_NAMES = ["ARG", "REF", "HOST", "USER", "FILE", "ITEM", "THING"]
 DECOR = ["plain", "plain", "plain", "extra_words", "noop_prefix", "and_prefix", "odd_spacing", "newline_inside", "trailing_semicolon",
-         "multiline_arg", "heredoc_arg", "exit_after", "ifs_change"]
+         "multiline_arg", "heredoc_arg", "exit_after", "exit_after", "exit_after", "ifs_change"]
 BEHAVIOURS = ["plain", "plain", "plain", "exit_nonzero", "stderr_noise", "empty", "empty_nonzero", "tab_descr", "dups", "spaces", "large", "dash",
               "exit_and_stderr", "prefix_chain", "wordbreak_chars"]
 
